@@ -159,6 +159,23 @@ structure PlanSt where
   plan : List RPlan
   trk : Trackers
 
+/-- raw bytes the planner wants from block `blk` at its current position -/
+def planWant (c : Cfg) (files : List FileSt) (blk : Blk) (s : PlanSt) (maxB : Nat) (stateless : Bool) : Nat :=
+  let want0 := maxB - s.planned
+  if s.planned = 0 then
+    if stateless ∧ s.hint > s.curOff then max want0 (s.hint - s.curOff)
+    else peekWant c files blk s.curOff want0
+  else want0
+
+def planStop (c : Cfg) (files : List FileSt) (blk : Blk) (s : PlanSt) (maxB : Nat) (stateless : Bool) : Nat :=
+  min blk.used (s.curOff + planWant c files blk s maxB stateless)
+
+def planAdd (blk : Blk) (s : PlanSt) (stop : Nat) : PlanSt :=
+  if stop > s.curOff then
+    { s with plan := s.plan ++ [{ blk := blk, start := s.curOff, stop := stop, isTail := false, chainIdx := s.curIdx }],
+             planned := s.planned + (stop - s.curOff) }
+  else s
+
 /-- the sealed-chain planning loop; `mark` = stateful ∧ checkpoint; `stateless` = offset given -/
 def planLoop (c : Cfg) (files : List FileSt) (chain : List Blk) (maxB : Nat) (mark stateless : Bool) :
     Nat → PlanSt → PlanSt
@@ -173,20 +190,10 @@ def planLoop (c : Cfg) (files : List FileSt) (chain : List Blk) (maxB : Nat) (ma
           planLoop c files chain maxB mark stateless fuel
             { s with curIdx := s.curIdx + 1, curOff := 0, hint := 0, trk := trk }
         else
-          let want0 := maxB - s.planned
-          let want :=
-            if s.planned = 0 then
-              if stateless ∧ s.hint > s.curOff then max want0 (s.hint - s.curOff)
-              else peekWant c files blk s.curOff want0
-            else want0
-          let stop := min blk.used (s.curOff + want)
-          let s :=
-            if stop > s.curOff then
-              { s with plan := s.plan ++ [{ blk := blk, start := s.curOff, stop := stop, isTail := false, chainIdx := s.curIdx }],
-                       planned := s.planned + (stop - s.curOff) }
-            else s
-          if stop < blk.used then s
-          else planLoop c files chain maxB mark stateless fuel { s with curIdx := s.curIdx + 1, curOff := 0 }
+          let stop := planStop c files blk s maxB stateless
+          let s1 := planAdd blk s stop
+          if stop < blk.used then s1
+          else planLoop c files chain maxB mark stateless fuel { s1 with curIdx := s.curIdx + 1, curOff := 0 }
       else s
 
 structure PState where
